@@ -2,3 +2,4 @@ import NjectProps.S7
 import NjectProps.C18
 import NjectProps.C06
 import NjectProps.C06b
+import NjectProps.C03C15
